@@ -337,7 +337,7 @@ func serverResolves(addr string) bool {
 func runConfig(seed uint64, n int, tier string, out string, replay string) {
 	rnd := hx.NewRand(seed)
 	sum := hx.NewSummary("config", seed)
-	sum.Rule = "one case = one generated configuration (0-2 compress profiles, 1-2 caches, 1-3 upstreams, 1-4 locations, 1-3 servers; names drawn from small pools so duplicates occur); 45% valid; the others carry 1-3 defects: each kind of dangling reference (upstream on any location incl. later ones, location / cache / compress on a server) and each kind of malformed field (durations, sizes, regexps, addresses, url paths, divide pairs, hostnames, policy, names too long or empty, empty required lists); Validate's verdict is compared, accepted configurations are applied through the five Reset functions and every server is probed; 1 in 6 accepted configurations also goes through Write/Read (YAML) and is compared; non-trivial = rejected for a reference error or accepted with >= 2 servers; distinct by configuration"
+	sum.Rule = "one case = one generated configuration (0-2 compress profiles, 1-2 caches, 1-3 upstreams, 1-4 locations, 1-3 servers; names drawn from small pools so duplicates occur); 45% valid; the others carry 1-3 defects: each kind of dangling reference (upstream on any location incl. later ones, location / cache / compress on a server) and each kind of malformed field (durations, sizes, regexps, addresses, url paths, divide pairs, hostnames, policy, names too long or empty, empty required lists); Validate's verdict is compared, accepted configurations are applied through the five Reset functions and every server is probed; every accepted configuration also goes through Write/Read (YAML file client) with every remark field set to a string from a pool of 35 that need quoting (multi-line with and without final newline, leading/trailing blanks, YAML keywords, numbers, indicators, unicode, CRLF) and is compared field by field; a Write or Read error on an accepted configuration is reported too; non-trivial = rejected for a reference error or accepted with >= 2 servers; distinct by configuration"
 	header := "From Coq Require Import List NArith ZArith.\nImport ListNotations.\nFrom Pike Require Import Base.Bytes Model.Config Corr.ConfigCorr.\n"
 	w := hx.NewCaseWriter(out, "config", header, "list cf_case", "check_cases", 60, sum)
 	distinct := hx.NewDistinct()
@@ -366,20 +366,27 @@ func runConfig(seed uint64, n int, tier string, out string, replay string) {
 					rep["unresolved_server"] = s.Addr
 				}
 			}
-			if i%6 == 0 { // YAML round trip through the file client
+			{ // YAML round trip through the file client: the accepted configuration, its free-text fields set to values that need YAML quoting
 				file := filepath.Join(tmpdir, fmt.Sprintf("c%d.yml", i))
 				if e := config.InitDefaultClient(file); e == nil {
-					cp := g.cfg
-					if e := config.Write(&cp); e == nil {
-						back, e2 := config.Read()
-						if e2 == nil {
-							back.YAML, back.Version = "", ""
-							cp.YAML, cp.Version = "", ""
-							if !reflect.DeepEqual(normalizeCfg(back), normalizeCfg(&cp)) {
-								sum.ImplViolations = append(sum.ImplViolations, map[string]interface{}{"property": "C17", "kind": "yaml-roundtrip", "config": string(b)})
-							}
-							sum.Count("yaml-roundtrip")
+					cp := deepCopyCfg(&g.cfg)
+					decorateRemarks(cp, rnd)
+					want := deepCopyCfg(cp)
+					fail := func(kind string, err error) {
+						y, _ := json.Marshal(want)
+						sum.ImplViolations = append(sum.ImplViolations, map[string]interface{}{"property": "C17", "kind": kind, "error": fmt.Sprint(err), "config": string(y)})
+					}
+					if e := config.Write(cp); e != nil {
+						fail("yaml-write-error", e)
+					} else if back, e2 := config.Read(); e2 != nil {
+						fail("yaml-read-error", e2)
+					} else {
+						back.YAML, back.Version = "", ""
+						want.YAML, want.Version = "", ""
+						if !reflect.DeepEqual(normalizeCfg(back), normalizeCfg(want)) {
+							fail("yaml-roundtrip", nil)
 						}
+						sum.Count("yaml-roundtrip")
 					}
 					_ = config.Close()
 				}
@@ -414,6 +421,7 @@ type robs struct {
 	Caches   []string
 	Levels   []string
 	Route    []string
+	Extra    map[string]interface{} // compared live vs fresh on the Go side only
 }
 
 func observeRegistries(addrs, upNames, cacheNames, profNames, locNames []string) robs {
@@ -445,6 +453,20 @@ func observeRegistries(addrs, upNames, cacheNames, profNames, locNames []string)
 		o.Ups = append(o.Ups, fmt.Sprintf("{| uo_name := %s; uo_present := true; uo_policy := %s; uo_accept := %s; uo_backup := %s |}",
 			hx.Str(n), hx.Str(u.Option.Policy), hx.Str(u.Option.AcceptEncoding), hx.List(flags)))
 	}
+	o.Extra = map[string]interface{}{}
+	for _, n := range upNames {
+		if u := upstream.Get(n); u != nil {
+			var sv []string
+			for _, x := range u.Option.Servers {
+				sv = append(sv, fmt.Sprintf("%s backup=%v", x.Addr, x.Backup))
+			}
+			var pool []string
+			for _, x := range u.HTTPUpstream.GetUpstreamList() {
+				pool = append(pool, fmt.Sprintf("%s backup=%v", x.URL.String(), x.Backup))
+			}
+			o.Extra["upstream:"+n] = map[string]interface{}{"health": u.Option.HealthCheck, "policy": u.Option.Policy, "h2c": u.Option.EnableH2C, "accept": u.Option.AcceptEncoding, "servers": sv, "pool": pool}
+		}
+	}
 	for _, n := range cacheNames {
 		o.Caches = append(o.Caches, fmt.Sprintf("(%s, %s)", hx.Str(n), hx.Bool(cache.GetDispatcher(n) != nil)))
 	}
@@ -461,6 +483,14 @@ func observeRegistries(addrs, upNames, cacheNames, profNames, locNames []string)
 					r = "(Some " + hx.Str(l.Upstream) + ")"
 				}
 				o.Route = append(o.Route, fmt.Sprintf("(%s, %s, %s, %s)", hx.Str(h), hx.Str(u), hx.Str(n), r))
+				if l != nil {
+					req := httptest.NewRequest("GET", "http://"+h+u+"?q=1", nil)
+					if l.URLRewriter != nil {
+						l.URLRewriter(req)
+					}
+					o.Extra["route:"+h+u+":"+n] = map[string]interface{}{"name": l.Name, "upstream": l.Upstream, "prefixes": l.Prefixes, "rewrites": l.Rewrites, "hosts": l.Hosts,
+						"timeout": l.ProxyTimeout.String(), "resp": l.ResponseHeader, "req": l.RequestHeader, "query": l.Query, "rewritten": req.URL.Path}
+				}
 			}
 		}
 	}
@@ -526,12 +556,14 @@ func runReconfChild(seed uint64, n int, tier string, out string, replay string) 
 	applyConfig(&in.Config)
 	o := observeRegistries(in.Probe.Addrs, in.Probe.Ups, in.Probe.Caches, in.Probe.Profiles, in.Probe.Locs)
 	fmt.Println("ROBS " + o.coq())
+	xb, _ := json.Marshal(o.Extra)
+	fmt.Println("XOBS " + string(xb))
 }
 
 func runReconf(seed uint64, n int, tier string, out string, replay string) {
 	rnd := hx.NewRand(seed)
 	sum := hx.NewSummary("reconf", seed)
-	sum.Rule = "one case = a sequence of 2-5 valid configurations (sections added / removed / modified, optional fields set and unset: compress levels, min length, filter, upstream options, location constraints; profile named bestCompression overridden and dropped) applied through the five Reset functions in main.update's order to one process, observed through the exported getters (server bindings and thresholds, upstream options, dispatcher presence and identity, compress levels per profile name, routing probes over 3 hosts x 3 URIs x location names) and compared with a FRESH child process that applies only the last configuration; non-trivial = the last configuration differs from the previous one in some section; distinct by the sequence"
+	sum.Rule = "one case = a sequence of 2-5 valid configurations (sections added / removed / modified, optional fields set and unset: compress levels, min length, filter, upstream options, location constraints; profile named bestCompression overridden and dropped) applied through the five Reset functions in main.update's order to one process, observed through the exported getters (server bindings and thresholds, upstream options, dispatcher presence and identity, compress levels per profile name, routing probes over 3 hosts x 3 URIs x location names; Go-side additionally every upstream's full option set and server pool, and for every routing probe the chosen location's rewrites, added headers/query, timeout and the rewritten path) and compared with a FRESH child process that applies only the last configuration; non-trivial = the last configuration differs from the previous one in some section; distinct by the sequence"
 	header := "From Coq Require Import List NArith ZArith.\nImport ListNotations.\nFrom Pike Require Import Base.Bytes Model.Config Corr.ConfigCorr.\n"
 	w := hx.NewCaseWriter(out, "reconf", header, "list rc_case", "check_reconf", 10, sum)
 	distinct := hx.NewDistinct()
@@ -547,7 +579,7 @@ func runReconf(seed uint64, n int, tier string, out string, replay string) {
 				seq = append(seq, g)
 			}
 		}
-		if rnd.Chance(40) { // the last configuration is a small edit of the previous one: optional fields unset
+		if rnd.Chance(55) { // the last configuration is a small edit of the previous one: optional fields unset, one-field edits of upstreams (a backup flag, policy, accept-encoding, health path, server order) and locations (rewrites, headers, query, timeout)
 			prev := seq[len(seq)-2]
 			b, _ := json.Marshal(prev.cfg)
 			var c2 config.PikeConfig
@@ -564,6 +596,49 @@ func runReconf(seed uint64, n int, tier string, out string, replay string) {
 				if rnd.Bool() {
 					g2.cfg.Servers[j].CompressContentTypeFilter = ""
 					g2.srvFilt[j] = ""
+				}
+			}
+			for j := range g2.cfg.Upstreams { // one-field edits of an upstream that keeps its name and addresses
+				u := &g2.cfg.Upstreams[j]
+				switch rnd.Intn(6) {
+				case 0:
+					k := rnd.Intn(len(u.Servers))
+					u.Servers[k].Backup = !u.Servers[k].Backup
+					sum.Count("edit:upstream-backup-flag")
+				case 1:
+					u.Policy = rnd.Pick([]string{"", "first", "roundRobin", "random", "leastconn"})
+					sum.Count("edit:upstream-policy")
+				case 2:
+					u.AcceptEncoding = rnd.Pick([]string{"", "gzip", "gzip, br"})
+					sum.Count("edit:upstream-accept")
+				case 3:
+					u.HealthCheck = rnd.Pick([]string{"", "/ping", "/health"})
+					sum.Count("edit:upstream-health")
+				case 4:
+					if len(u.Servers) > 1 {
+						u.Servers[0], u.Servers[1] = u.Servers[1], u.Servers[0]
+						sum.Count("edit:upstream-server-order")
+					}
+				}
+			}
+			for j := range g2.cfg.Locations { // one-field edits of a location
+				l := &g2.cfg.Locations[j]
+				switch rnd.Intn(7) {
+				case 0:
+					l.Rewrites = pickL(rnd, [][]string{nil, {"/api/*:/$1"}, {"/api/*:/v2/$1", "/static/*:/s/$1"}})
+					sum.Count("edit:location-rewrites")
+				case 1:
+					l.RespHeaders = pickL(rnd, [][]string{nil, {"X-R:1"}, {"X-R:2", "X-S:3"}})
+					sum.Count("edit:location-resp-headers")
+				case 2:
+					l.ReqHeaders = pickL(rnd, [][]string{nil, {"X-Q:1"}, {"X-Q:2"}})
+					sum.Count("edit:location-req-headers")
+				case 3:
+					l.QueryStrings = pickL(rnd, [][]string{nil, {"a:1"}, {"a:2", "b:3"}})
+					sum.Count("edit:location-query")
+				case 4:
+					l.ProxyTimeout = rnd.Pick([]string{"", "1s", "30s"})
+					sum.Count("edit:location-timeout")
 				}
 			}
 			for j := range g2.cfg.Compresses {
@@ -628,11 +703,16 @@ func runReconf(seed uint64, n int, tier string, out string, replay string) {
 		cmd := exec.Command(self, "reconf-child", "--replay", file)
 		outb, err := cmd.Output()
 		fresh := ""
+		freshExtra := ""
 		for _, line := range strings.Split(string(outb), "\n") {
 			if strings.HasPrefix(line, "ROBS ") {
 				fresh = strings.TrimPrefix(line, "ROBS ")
 			}
+			if strings.HasPrefix(line, "XOBS ") {
+				freshExtra = strings.TrimPrefix(line, "XOBS ")
+			}
 		}
+		liveExtraB, _ := json.Marshal(live.Extra)
 		if err != nil || fresh == "" {
 			panic(fmt.Sprintf("reconf child failed: %v %s", err, string(outb)))
 		}
@@ -643,7 +723,25 @@ func runReconf(seed uint64, n int, tier string, out string, replay string) {
 			jb, _ := json.Marshal(g.cfg)
 			cfgJSON = append(cfgJSON, string(jb))
 		}
-		rep := map[string]interface{}{"configs": cfgJSON, "live_equals_fresh": live.coq() == fresh}
+		rep := map[string]interface{}{"configs": cfgJSON, "live_equals_fresh": live.coq() == fresh && string(liveExtraB) == freshExtra}
+		if string(liveExtraB) != freshExtra {
+			var fe map[string]interface{}
+			_ = json.Unmarshal([]byte(freshExtra), &fe)
+			var le map[string]interface{}
+			_ = json.Unmarshal(liveExtraB, &le)
+			diff := map[string]interface{}{}
+			for k, v := range le {
+				if !reflect.DeepEqual(v, fe[k]) {
+					diff[k] = map[string]interface{}{"live": v, "fresh": fe[k]}
+				}
+			}
+			for k, v := range fe {
+				if _, ok := le[k]; !ok {
+					diff[k] = map[string]interface{}{"live": nil, "fresh": v}
+				}
+			}
+			sum.ImplViolations = append(sum.ImplViolations, map[string]interface{}{"property": "C16", "kind": "live-differs-from-fresh", "differences": diff, "configs": cfgJSON})
+		}
 		w.Add(fmt.Sprintf("{| rc_cfgs := %s; rc_live := %s; rc_fresh := %s; rc_retained := %s |}", hx.List(cfgTerms), live.coq(), fresh, hx.List(retained)), rep)
 		sum.Evaluations++
 		if cfgJSON[len(cfgJSON)-1] != cfgJSON[len(cfgJSON)-2] {
@@ -658,3 +756,36 @@ func runReconf(seed uint64, n int, tier string, out string, replay string) {
 }
 
 var _ = httptest.NewRecorder
+
+func deepCopyCfg(c *config.PikeConfig) *config.PikeConfig {
+	b, _ := json.Marshal(c)
+	out := &config.PikeConfig{}
+	_ = json.Unmarshal(b, out)
+	return out
+}
+
+// free text that needs YAML quoting or block scalars
+var trickyText = []string{"", "plain", "first line\nsecond line\n", "note\n\n", "two\nlines", " leading space", "trailing space ", "yes", "null", "~", "123", "1e3", "0x10",
+	"key: value", "# not a comment", "- item", "'single'", "\"double\"", "a\tb", "| pipe", "> fold", "%percent", "@at", "!!str tag", "&anchor *alias", "{a: b}", "[1, 2]", "caf\u00e9 \u4e2d\u6587", "\n", "  ", "line\r\nwin", "back\\slash", "?q", "trailing colon:", "\u2028sep"}
+
+func decorateRemarks(c *config.PikeConfig, r *hx.Rand) {
+	pick := func() string { return trickyText[r.Intn(len(trickyText))] }
+	c.Admin.Remark = pick()
+	for i := range c.Compresses {
+		c.Compresses[i].Remark = pick()
+	}
+	for i := range c.Caches {
+		c.Caches[i].Remark = pick()
+	}
+	for i := range c.Upstreams {
+		c.Upstreams[i].Remark = pick()
+	}
+	for i := range c.Locations {
+		c.Locations[i].Remark = pick()
+	}
+	for i := range c.Servers {
+		c.Servers[i].Remark = pick()
+	}
+}
+
+func pickL(r *hx.Rand, xs [][]string) []string { return xs[r.Intn(len(xs))] }
